@@ -30,6 +30,7 @@ use viewspec::*;
 
 thread_local! {
     static LAST_PANIC: std::cell::RefCell<String> = const { std::cell::RefCell::new(String::new()) };
+    static LAST_PRE: std::cell::RefCell<String> = const { std::cell::RefCell::new(String::new()) };
 }
 
 fn new_mount() -> web_sys::Element {
@@ -117,7 +118,9 @@ fn run_view(l: &[Sx], hydrate_html: Option<String>) -> Vec<String> {
     let mut out = Vec::new();
     if let Some(html) = &hydrate_html {
         mount.set_inner_html(html);
-        out.push(format!("pre {} ; nodes {}", hex(&ser(&mnode, true)), dump_str(&mnode)));
+        let pre_nodes = dump_str(&mnode);
+        LAST_PRE.with(|p| *p.borrow_mut() = pre_nodes.clone());
+        out.push(format!("pre {} ; nodes {}", hex(&ser(&mnode, true)), pre_nodes));
     }
     web_sys::take_mutations();
     let mut sigs_slot = None;
@@ -192,7 +195,14 @@ fn run_scenario(line: &str) -> Vec<String> {
     web_sys::take_warnings();
     match r {
         Ok(v) => v,
-        Err(_) => vec![format!("PANIC {}", hex(&LAST_PANIC.with(|p| p.borrow().clone())))],
+        Err(_) => {
+            // for a hydration that panicked, keep the parsed server DOM it was given (second line)
+            let mut v = vec![format!("PANIC {}", hex(&LAST_PANIC.with(|p| p.borrow().clone())))];
+            if l[0].atom() == "hydrate" {
+                v.push(format!("prenodes {}", LAST_PRE.with(|p| p.borrow().clone())));
+            }
+            v
+        }
     }
 }
 
